@@ -19,6 +19,8 @@ ensures: PrimitiveOperation with target arrays of the declared shape/dtype and s
 """
 from __future__ import annotations
 
+import os
+
 import z3
 
 from . import sym
@@ -199,11 +201,19 @@ def run_gb(c, it, a, k):
             if not _is_fargs(fargs):
                 raise Unsupported("key function did not return FunctionArgs")
             blocks = [_blocks_of(c, it, arg, by_name, f"{tag}.keys", pos, rec) for pos, arg in enumerate(fargs.attrs["args"])]
+            meter = None
+            if getattr(c, "meter_memory", False) or os.environ.get("PYVC_METER"):
+                from .memmeter import MemMeter
+
+                meter = ctx.meter = MemMeter(it, pinned=blocks, on_alloc=_memory_obligation(c, it, tag, reserved_mem, arrays, extra_mem, dtypes, chunksizes, buffer_copies))
             try:
                 res = it.call(func, blocks, dict(func_kwargs))
             except PyExc as e:
                 _oblige(it, f"{tag}.shape:block-function-raises-nothing", False, detail=f"{e.tname}{e.eargs!r} at {e.where}")
                 raise _Abort()
+            finally:
+                ctx.meter = None
+
             _oblige(it, f"{tag}.shape:block-function-raises-nothing", True)
             if isinstance(res, GenList):
                 outs = list(res)
@@ -290,6 +300,62 @@ def _projected_mem(it, reserved_mem, arrays, extra, dtypes, chunksizes, bc):
             m = m * s
         out = m if out == 0 else wrap(z3.If(tz(m) > tz(out), tz(m), tz(out)))
     return mem + out * (1 + w)
+
+
+def _short(label):
+    return label.replace("(...)", "").replace("block:", "in:").replace(" ", "")
+
+
+def _memory_obligation(c, it, tag, reserved_mem, arrays, extra_mem, dtypes, chunksizes, buffer_copies):
+    """GB.mem (C03): at every allocation point of the block function the array data that is live fits into
+    projected_mem - reserved_mem (see pyvc/memmeter.py for what is counted).  -> the meter's allocation callback"""
+    ctx = it.ctx
+    mem = _projected_mem(it, reserved_mem, arrays, extra_mem, dtypes, chunksizes, buffer_copies)
+    budget = mem - reserved_mem
+    cands = [1]
+    for z in arrays:
+        cands.extend(z.chunks)
+    for cs in chunksizes:
+        cands.extend(cs)
+    memo, seen = {}, set()
+
+    def canon(e):
+        if isinstance(e, int):
+            return e
+        key = tz(e).get_id()
+        if key in memo and memo[key][0].eq(tz(e)):
+            return memo[key][1]
+        r = e
+        for cd in cands:
+            if cd is e or ctx.entails(tz(e) == tz(cd)):
+                r = cd
+                break
+        memo[key] = (tz(e), r)
+        return r
+
+    def on_alloc(meter, label, bufs):
+        total = 0
+        sizes = []
+        for b in bufs:
+            n = b.dtype.itemsize if b.dtype is not None and hasattr(b.dtype, "itemsize") else 1
+            for e in b.shape:
+                n = n * canon(e)
+            total = total + n
+            sizes.append(_short(b.label))
+        label = _short(label)
+        key = (label, tuple(sorted(sizes)))
+        if key in seen:
+            return
+        seen.add(key)
+        off = ctx.meter
+        ctx.meter = None  # the obligation itself allocates nothing
+        try:
+            _oblige(it, f"{tag}.mem:live-array-data-fits-projected-memory[at-{label}:{'+'.join(sorted(sizes))}]", tb(total <= budget),
+                    kind="ensures")
+        finally:
+            ctx.meter = off
+
+    return on_alloc
 
 
 def _align(c, it, ta, task_chunks, tag, j):
